@@ -80,7 +80,10 @@ def run_unit(args):
             c.deadline = time.time() + (90 if tier == "quick" else 600)
             res["bounded"] = u.bounded
         proxies.set_cx(c)
-        c.explore(u.body)
+        try:
+            c.explore(u.body)
+        finally:
+            c.unroute()
         res["paths"] = c.paths_run
         res["exhausted"] = c.exhausted
         res["rewrite"] = getattr(c, "rewrite_log", [])
@@ -228,6 +231,7 @@ def complete_by_unrolling(u, prop, o, known_ids, seed):
     except BaseException:
         return None
     finally:
+        c.unroute()
         core.PATH_CAP = old_cap
     for o2 in c.obligations:
         if (loopk or o2.name == o.name) and o2.status == "refuted":
@@ -474,6 +478,12 @@ def scan_assumptions(cfile):
 
 
 def main(argv=None):
+    import logging
+    logging.getLogger("asyncio").setLevel(logging.CRITICAL + 1)
+    for n in ("tornado.application", "tornado.general", "tornado.access"):
+        logging.getLogger(n).setLevel(logging.CRITICAL + 1)
+        logging.getLogger(n).propagate = False
+    logging.getLogger("tornado").addHandler(logging.NullHandler())
     ap = argparse.ArgumentParser()
     ap.add_argument("prop", nargs="?")
     ap.add_argument("--tier", default=os.environ.get("VERIF_TIER", "quick"))
